@@ -20,6 +20,7 @@ from vlib import exprs, monitors, reader
 
 PROP = 'C07'
 TITLE = 'attribute rendering'
+DEBUG_SHARDS = True      # two of sixteen shards run the library in its debug mode (vlib/runner.py)
 LEVEL = 'exploration'
 SHARDS = {'quick': 16, 'thorough': 16}
 FLOOR = {'quick': 1500, 'thorough': 15000}
